@@ -294,7 +294,7 @@ def main(tier):
                         "crashes (inconclusive for that input)",
                         "size-like arguments of allocation/iteration builtins are kept small by the generator"]
     if rep.coverage["evaluations"] < 5000:
-        rep.inconclusive_note("fewer than 5000 inputs observed")
+        rep.inconclusive_note("fewer than 5000 inputs observed", floor=True)
     return rep.finish()
 
 
